@@ -368,7 +368,8 @@ def check_main(engine, prop, tiers, argv=None):
         path = drv.write_replay(replay)
         # the replay file must reproduce in a fresh interpreter
         cmd = [sys.executable, os.path.join(VERIF, "checks.py"), prop, "--replay", path]
-        pr = subprocess.run(cmd, capture_output=True, text=True, env=dict(os.environ), timeout=600)
+        sub_env = {k: v for k, v in os.environ.items() if k != "VERIF_SCRATCH"}
+        pr = subprocess.run(cmd, capture_output=True, text=True, env=sub_env, timeout=600)
         if pr.returncode != 1 or f"VIOLATION property={prop}" not in pr.stdout:
             print(f"HARNESS-ERROR replay of {path} in a fresh interpreter did not reproduce (exit {pr.returncode}): {pr.stdout[-500:]} {pr.stderr[-300:]}")
             exit_code = max(exit_code, 2)
